@@ -277,7 +277,7 @@ def run(R):
 
     # ============================================================ writer
     meshes = [("empty", 0, 0, None), ("one-vertex-no-tri", 1, 0, None), ("one-triangle", 3, 1, None)]
-    for _ in range(40 if quick else 400):
+    for _ in range(120 if quick else 400):
         nv = rng.choice([1, 2, 3, 4, 7, 50, 255, 256, 257, rng.randrange(1, 400)])
         nt = rng.choice([0, 1, 2, 5, rng.randrange(0, 301)])
         meshes.append(("random", nv, nt, None))
@@ -342,7 +342,7 @@ def run(R):
             back = read_impl(written)
             if wf and back != ["ok", [f32bits(v).tolist(), t.astype("<u4").tolist()]]:
                 R.violation("round trip write -> read changed the mesh", case, {"read": back[0]})
-            if len(valid_files) < (60 if quick else 400) and dt == "uint32":
+            if len(valid_files) < (120 if quick else 400) and dt == "uint32":
                 valid_files.append((written, n, int(t.shape[0])))
 
     # writer shape assertions
@@ -395,7 +395,7 @@ def run(R):
             b = bytearray(written)
             b[0:4] = struct.pack("<I", newn)
             add("count-edit", b)
-    for _ in range(200 if quick else 3000):
+    for _ in range(1500 if quick else 6000):
         ln = rng.choice([4, 5, 15, 16, 17, 28, 40, rng.randrange(4, 80)])
         b = bytearray(rng.randrange(256) for _ in range(ln))
         if rng.random() < 0.8:
@@ -405,11 +405,11 @@ def run(R):
                 if rng.random() < 0.8:
                     b[k:k + 4] = struct.pack("<I", rng.randrange(0, 5))
         add("random", b)
-    if len(streams) > (6000 if quick else 10 ** 6):
+    if len(streams) > (12000 if quick else 10 ** 6):
         head = [s for s in streams if s[0] in ("short", "short-zero")]
         rest = [s for s in streams if s[0] not in ("short", "short-zero")]
         rng.shuffle(rest)
-        streams = head + rest[:6000]
+        streams = head + rest[:12000]
     replies = R.model.batch([("mesh_read", b) for _k, b in streams])
     for (kind, b), rep in zip(streams, replies):
         impl = read_impl(b)
@@ -463,7 +463,7 @@ def run(R):
         return [sum(Fraction(M[i][j]) * Fraction(v[j]) for j in range(3)) + Fraction(M[i][3]) for i in range(3)]
 
     acases = []
-    for _ in range(150 if quick else 3000):
+    for _ in range(500 if quick else 3000):
         vs, ts, c = closed_mesh()
         kind = rng.choice(["pos", "neg", "zero", "any", "any"])
         while True:
@@ -530,7 +530,7 @@ def run(R):
 
     # float affines (oracle only: rounding is not modelled)
     near_zero = 0
-    for _ in range(150 if quick else 3000):
+    for _ in range(400 if quick else 3000):
         vs, ts, c = closed_mesh()
         q, _r = np.linalg.qr(np.array([[rng.gauss(0, 1) for _ in range(3)] for _ in range(3)]))
         shear = np.eye(3)
@@ -599,7 +599,7 @@ def run(R):
             json.dump(info, f)
         return d
 
-    ncmd = 24 if quick else 200
+    ncmd = 60 if quick else 300
     cmd_cases = []
     for i in range(ncmd):
         vs, ts, c = closed_mesh()
@@ -715,7 +715,7 @@ def run(R):
     titles = ["", "t", "brain surface", "x" * 150, "x" * 164, "x" * 165, "x" * 166, "y" * 212, "y" * 213,
               "z" * 255, "z" * 400, "has\nnewline"]
     names = ["curv", "a", "thick_ness", "a b", " lead", "tail ", "", "\tt", "7", "x\ty", "a\nb"]
-    for i in range(60 if quick else 1500):
+    for i in range(250 if quick else 1500):
         nv = rng.choice([0, 1, 3, 4, rng.randrange(1, 40)])
         nt = rng.choice([0, 1, 2, rng.randrange(0, 60)])
         v, t = random_mesh(rng, nv, nt)
@@ -811,7 +811,7 @@ def run(R):
     # ============================================================ fragment links
     alphabet = "abcXYZ019._-:/ \"\\\t,'é"[:-1] + "\x01\x7f{}[]"
     lcases = []
-    for i in range(60 if quick else 800):
+    for i in range(200 if quick else 800):
         nrows = rng.choice([0, 1, 2, 3, 5])
         rows = []
         kind = rng.choice(["valid", "valid", "valid", "dup", "blank", "badlabel", "dotdot", "oddlabel"])
